@@ -83,7 +83,9 @@ def cross_backend(idx, seed, per_fn, tier):
         # +fma: bit for bit
         x = outs['sse2+fma'][i]
         if x is not None:
-            if x == b0: stats['fma_bit_identical'] += 1
+            # bit-for-bit, except that the payload/sign of a NaN result is not compared (Rust does not specify which NaN an operation propagates,
+            # and VEX-encoded instructions may commute the operands)
+            if x == b0 or parse(f, base, b0)[0] == parse(f, 'sse2+fma', x)[0]: stats['fma_bit_identical'] += 1
             else: bad.append(({'kind': 'counterexample', 'theorem': '+fma,+avx2 build must be bit-identical to the default build', 'function': f['key'], 'cfg': 'sse2+fma', 'did': f['did'], 'input_words': ['%x' % w for w in words], 'default_build': b0, 'fma_build': x, 'how_found': 'differential run of two builds of the working tree'}, True))
         for cfg in ('scalar', 'coresimd'):
             y = outs[cfg][i]
